@@ -108,7 +108,7 @@ func c04Grammar(res *explore.Result, g *gram.Grammar, inputs [][]byte, verbose b
 					continue
 				}
 				n := len(w)
-				c := Case{Grammar: gs, Input: string(w), Note: v.String()}
+				c := Case{Placement: impl.Placement, Grammar: gs, Input: string(w), Note: v.String()}
 				where := fmt.Sprintf("%s [%s]", c, v)
 				res.Add("states", 1)
 
@@ -186,20 +186,20 @@ func c04Grammar(res *explore.Result, g *gram.Grammar, inputs [][]byte, verbose b
 						if want {
 							viol("rejects-derivable-input", fmt.Sprintf("the grammar derives the whole input (reference ends of N0 at 0: %v) but Parse failed: %v", t.EndSet(body, 0), perr))
 						} else {
-							viol("accepts-underivable-input", fmt.Sprintf("no derivation consumes the input (reference ends of N0 at 0: %v, length %d) but Parse returned %s", t.EndSet(body, 0), n, impl.Render(node, 1)))
+							viol("accepts-underivable-input", fmt.Sprintf("no derivation consumes the input (reference ends of N0 at 0: %v, length %d) but Parse returned %s", t.EndSet(body, 0), n, impl.Render(node, impl.Base)))
 						}
 					}
 				}
 				if ok && sentence {
-					if int(node.Pos()) != 1 || int(node.ReaderPos()) != 1+n {
-						viol("root-span", fmt.Sprintf("Sentence succeeded but the root spans <%d,%d>, input is <0,%d>", int(node.Pos())-1, int(node.ReaderPos())-1, n))
+					if int(node.Pos()) != impl.Base || int(node.ReaderPos()) != impl.Base+n {
+						viol("root-span", fmt.Sprintf("Sentence succeeded but the root spans <%d,%d>, input is <0,%d>", int(node.Pos())-impl.Base, int(node.ReaderPos())-impl.Base, n))
 					}
 				}
 				if verbose {
-					res.Notes = append(res.Notes, fmt.Sprintf("[%s] Parse -> node=%s err=%v | Evaluate -> value=%#v err=%v", v, impl.Render(node, 1), perr, val, eerr))
+					res.Notes = append(res.Notes, fmt.Sprintf("[%s] Parse -> node=%s err=%v | Evaluate -> value=%#v err=%v", v, impl.Render(node, impl.Base), perr, val, eerr))
 				}
 				if res.Counters["states"]%20000 == 1 {
-					res.Sample(fmt.Sprintf("%s -> node=%s err=%v", where, impl.Render(node, 1), perr))
+					res.Sample(fmt.Sprintf("%s -> node=%s err=%v", where, impl.Render(node, impl.Base), perr))
 				}
 			}
 		}
@@ -209,7 +209,7 @@ func c04Grammar(res *explore.Result, g *gram.Grammar, inputs [][]byte, verbose b
 
 func c04Run(env *explore.Env) *explore.Result {
 	res := explore.NewResult()
-	eachGrammar(env, res, c04Specs(env.Tier), c04Seeds, func(g *gram.Grammar, inputs [][]byte, fromSeed bool) {
+	eachGrammarPlaced(env, res, c04Specs(env.Tier), c04Seeds, func(g *gram.Grammar, inputs [][]byte, fromSeed bool) {
 		if fromSeed {
 			inputs = append(inputs, []byte("c"))
 		}
